@@ -267,3 +267,65 @@ func H_C07_terminal() {
 	}
 	vreach("end")
 }
+
+// H_C07_between: the cancellation happens BETWEEN polls — after the j-th output, while the
+// caller holds the iterator, or inside a native function in the middle of a run. The very
+// next thing Next returns is the context's error (the next step of the interpreter sees
+// it): no further value is emitted first.
+func H_C07_between() {
+	c := &c07ctx{k: 1 << 30, closed: make(chan struct{}), open: make(chan struct{})}
+	close(c.closed)
+	cancelNow := func(v any, _ []any) any { c.k = c.n; return v }
+	if nondetBool() {
+		// cancelled from inside the run
+		progs := []string{`cancel_now | (1, 2, 3)`, `[range(5)] | cancel_now | .[]`, `1, (2 | cancel_now), 3`, `cancel_now | repeat(1)`, `(1, 2) | cancel_now | (., .)`, `reduce range(3) as $i (0; cancel_now) | (1, 2)`, `first(cancel_now, 2), 3`, `try (cancel_now | error("x")) catch 7`, `[cancel_now, 1] | .[]`, `label $l | cancel_now | 1, break $l`}
+		p := nondetChoice(len(progs))
+		vlabel("prog", progs[p])
+		q := vmemo_parse(progs[p])
+		code, err := Compile(q, WithFunction("cancel_now", 0, 0, cancelNow))
+		if q == nil || err != nil {
+			return
+		}
+		it := code.RunWithContext(c, []any{hSmallInt(), 2})
+		seenCancel := false
+		for i := 0; i < 8; i++ {
+			before := c.k != 1<<30 // already cancelled when this Next starts
+			v, ok := it.Next()
+			if !ok {
+				break
+			}
+			if e, isErr := v.(error); isErr && e == context.Canceled {
+				seenCancel = true
+				break
+			}
+			vassert(!before, "no value is emitted by a Next call that starts after the cancellation")
+		}
+		if c.k != 1<<30 {
+			vassert(seenCancel, "a run cancelled from inside reports the context's error")
+		}
+		vreach("inside")
+		return
+	}
+	// cancelled by the caller between two Next calls
+	p := nondetChoice(len(c07Progs))
+	vlabel("prog", c07Progs[p])
+	code := c07Code(p)
+	if code == nil || c07Silent(p) {
+		return
+	}
+	it := code.RunWithContext(c, []any{hSmallInt(), 2, 3}, 7)
+	j := nondetChoice(5)
+	for i := 0; i < j; i++ {
+		if _, ok := it.Next(); !ok {
+			return // ended before the cancellation
+		}
+	}
+	c.k = c.n // cancel now
+	v, ok := it.Next()
+	if ok {
+		e, isErr := v.(error)
+		vassert(isErr && e == context.Canceled, "the first Next after the cancellation returns the context's error, not another value")
+	}
+	// (an iterator that had nothing left may answer false instead)
+	vreach("between")
+}
